@@ -47,7 +47,7 @@ impl Msg {
     }
 }
 
-#[derive(Debug)]
+#[derive(Clone, Debug)]
 pub struct Reply {
     pub replier: u16,
     pub msg: u64,
@@ -239,10 +239,10 @@ impl Node {
                 let id = ctx.fresh_msg();
                 let m = Msg::new(&ctx, id, kind, msg.ttl - 1, child_salt(msg.salt, self.idx, op_idx));
                 ctx.log(Ev::SendBegin { actor, port: 1000 + port as u16, msg: id, kind, query: true, salt: m.salt, ttl: m.ttl });
-                let replies: Vec<(u16, u64, u32)> = self.reqs[port as usize]
+                let replies: Vec<(u16, u64, u32, u32)> = self.reqs[port as usize]
                     .send(m)
                     .await
-                    .map(|r| (r.replier, r.msg, if r.rvia != 0 { r.rvia } else { r.via }))
+                    .map(|r| (r.replier, r.msg, r.via, r.rvia))
                     .collect();
                 ctx.log(Ev::SendEnd { actor, port: 1000 + port as u16, msg: id, replies });
             }
@@ -349,6 +349,18 @@ impl Node {
                         };
                         drop(w);
                     }
+                }
+            }
+            Op::Connect { port, target, cid } if port >= 100 => {
+                let rp = (port - 100) as usize;
+                if rp < self.reqs.len() && (target as usize) < self.addrs.len() {
+                    let addr = self.addrs[target as usize].clone();
+                    let rmap = move |mut r: Reply| {
+                        r.rvia = cid;
+                        r
+                    };
+                    self.reqs[rp].map_connect(move |m: &Msg| m.with_via(cid), rmap, Node::on_query, addr);
+                    ctx.log(Ev::Note(format!("connect node={} port={} target={} cid={}", self.idx, port, target, cid)));
                 }
             }
             Op::Connect { port, target, cid } => {
@@ -573,6 +585,20 @@ pub fn build(case: &Arc<Case>, ctx: &Arc<ExecCtx>) -> Bench {
                     if let (Target::Node(j), Some((255, q))) = (e.target, e.filter) {
                         let c = nodes[j as usize].as_ref().unwrap().outs[q as usize].clone();
                         nodes[i].as_mut().unwrap().outs[p] = c;
+                    }
+                }
+            }
+        }
+    }
+
+    // Requestor clones, declared like output clones.
+    for i in 0..n {
+        for p in 0..case.nodes[i].reqs.len() {
+            if let Some(e) = case.nodes[i].reqs[p].first() {
+                if e.cid == 0 {
+                    if let (Target::Node(j), Some((255, q))) = (e.target, e.filter) {
+                        let c = nodes[j as usize].as_ref().unwrap().reqs[q as usize].clone();
+                        nodes[i].as_mut().unwrap().reqs[p] = c;
                     }
                 }
             }
